@@ -113,7 +113,10 @@ def value_grid(repo, rep, tier):
         except NotEvaluable as e:
             rep.inconcl("R-VALUE", site, "stored value not executable: %s" % e)
             return
-        except (TypeError, ValueError, ZeroDivisionError) as e:
+        except (TypeError, ValueError, IndexError, KeyError) as e:     # the evaluator's own limits are not evidence against the code
+            rep.inconcl("R-VALUE", site, "stored value not executable: %s: %s" % (type(e).__name__, e))
+            return
+        except ZeroDivisionError as e:
             bad.setdefault("error", []).append("Angle%s: %s: %s" % (tuple(float(x) for x in vals), type(e).__name__, e))
             continue
         n += 1
